@@ -248,6 +248,12 @@ func H01_nested_publish() {
 	}
 	b.svr.Subscribe("b", 2, &inB1.fn)
 	b.svr.Subscribe("b", 0, &inB2.fn)
+	// (the inner topic has more subscribers than the outer one: a subscriber list shared between the two
+	// publications would be overwritten up to the outer loop's remaining positions)
+	extra := []*vrtInproc{vrtNewInproc(), vrtNewInproc(), vrtNewInproc()}
+	for _, x := range extra {
+		b.svr.Subscribe("b", 1, &x.fn)
+	}
 	m := message.NewPublishMessage()
 	m.SetTopic([]byte("a"))
 	m.SetPayload([]byte("outer"))
@@ -269,6 +275,9 @@ func H01_nested_publish() {
 	vrtCheckDelivery("outer.client", got, true, []byte("a"), []byte("outer"), 1)
 	vrtCheckDelivery("inner.b1", inB1.take(), true, []byte("b"), []byte("inner"), 1)
 	vrtCheckDelivery("inner.b2", inB2.take(), true, []byte("b"), []byte("inner"), 0)
+	for _, x := range extra {
+		vrtCheckDelivery("inner.extra", x.take(), true, []byte("b"), []byte("inner"), 1)
+	}
 	vrtReach("C01.nested_publish")
 }
 
